@@ -1851,3 +1851,134 @@ class C14(Spec):
             if b2:
                 out.append(dict(plan, tree=dict(plan["tree"], algos=[{"a": "Or", "algos": b2}])))
         return out
+
+
+@register
+class C15(Spec):
+    id = "C15"
+    tiers = {"quick": dict(runs=1000, builds=("py",), wall=80), "thorough": dict(runs=30000, builds=("py",), wall=1200)}
+    rule = (
+        "every weighting algo sits behind the oracle wrapper in real Backtest.run()s: each date the stack evaluates 4-7 branches with their own selection (empty, single, many) and seeded parameters (windows, lags, limits, bounds, targets), "
+        "then a trading tail (weights -> LimitDeltas / PTE_Rebalance behind the wrapper -> Rebalance) keeps a live drifting portfolio; stated relations are checked on the same universe window (normalisation, w_i sigma_i equal, equal risk contributions under the same estimator, caps, delta limits vs live weights, ex-ante vol = target, PTE trigger); "
+        "distinct = plan digest; non-trivial = >= 10 judged calls and a live portfolio"
+    )
+    assumptions = ["thin fit (see DESIGN): algebraic relations over inputs; the simulation supplies windows positioned by the clock and live drifted portfolios", "ffn's optimisers are trusted up to the stated relation (ERC risk contributions equal within 2e-3 of total risk)"]
+
+    def gen(self, r, tier, i):
+        ndates = r.randint(18, 30)
+        ntick = r.randint(3, 5)
+        fspec, fired = drive_engine.gen_feed(r, ndates, ntick, style="bday", faults={"late_listing": 0.15}, spread_p=0.0)
+        dates, tickers = fspec["dates"], fspec["tickers"]
+        for row in fspec["prices"]:  # risk algos need moving prices
+            pass
+        warm = 13
+        extra = {}
+        full = [t for j, t in enumerate(tickers) if all(row[j] is not None for row in fspec["prices"])] or tickers[:1]
+        branches = []
+        win = lambda: {"lookback": {"days": r.randint(12, 17)}, "lag": {"days": r.choice([0, 0, 1, 2])}}  # noqa: E731
+
+        def selection():
+            k = r.random()
+            if k < 0.1:
+                return []
+            if k < 0.2:
+                return [r.choice(full)]
+            return r.sample(full, r.randint(2, len(full))) if len(full) >= 2 else list(full)
+
+        def wvec(names):
+            raw = [r.random() + 0.05 for _ in names]
+            tot = sum(raw)
+            return {n: round(x / tot, 6) for n, x in zip(names, raw)}
+
+        for bi in range(r.randint(4, 7)):
+            a = r.choice(["WeighEqually", "WeighSpecified", "ScaleWeights", "WeighTarget", "WeighInvVol", "WeighERC", "WeighMeanVar", "WeighRandomly", "LimitWeights", "TargetVol"])
+            sel = selection()
+            pre = [{"a": "SetTemp", "set": {"selected": sel, "weights": "__del__"}}]
+            if a in ("WeighEqually",):
+                inner = {"a": a}
+            elif a == "WeighSpecified":
+                inner = {"a": a, "weights": wvec(sel or full[:1])}
+            elif a == "ScaleWeights":
+                pre.append({"a": "WeighSpecified", "weights": wvec(sel or full[:1])})
+                inner = {"a": a, "args": [r.choice([0.5, -1.0, 2.0, 0.0])]}
+            elif a == "WeighTarget":
+                nm = "tw%d" % bi
+                rows = sorted(r.sample(dates, r.randint(2, len(dates))))
+                extra[nm] = drive_engine._frame(tickers, [[None if r.random() < 0.2 else round(r.random(), 4) for _ in tickers] for _ in rows], rows=rows)
+                inner = {"a": a, "args": [nm]}
+            elif a in ("WeighInvVol", "WeighERC", "WeighMeanVar"):
+                inner = {"a": a, "kw": win()}
+                if a == "WeighMeanVar" and r.random() < 0.5:
+                    inner["kw"]["bounds"] = [0.0, r.choice([0.6, 0.8, 1.0])]
+            elif a == "WeighRandomly":
+                lo = r.choice([0.0, 0.0, 0.1])
+                hi = r.choice([1.0, 0.6, 0.4, 0.2])
+                inner = {"a": a, "kw": {"bounds": [lo, hi], "weight_sum": r.choice([1, 1, 0.5])}}
+            elif a == "LimitWeights":
+                pre.append({"a": "WeighSpecified", "weights": wvec(sel or full[:1])})
+                inner = {"a": a, "kw": {"limit": r.choice([0.1, 0.3, 0.4, 0.6, 0.9])}}
+            else:
+                pre.append({"a": "WeighSpecified", "weights": wvec(sel if len(sel) >= 2 else full[:2] if len(full) >= 2 else full)})
+                inner = {"a": a, "args": [r.choice([0.05, 0.1, 0.2])], "kw": win()}
+            branches.append({"a": "AlgoStack", "algos": pre + [{"a": "Wrap", "inner": inner}]})
+        # trading tail: a live portfolio that drifts, LimitDeltas / PTE_Rebalance judged against it
+        tailw = wvec(full)
+        nmw = "ptw"
+        extra[nmw] = drive_engine._frame(tickers, [[tailw.get(t, 0.0) for t in tickers] for _ in dates])
+        tail = [{"a": "SetTemp", "set": {"selected": "__del__", "weights": "__del__"}}]
+        k = r.random()
+        if k < 0.5:
+            rows = sorted(r.sample(dates[warm:], r.randint(2, len(dates) - warm)))
+            nm = "tailtw"
+            extra[nm] = drive_engine._frame(full, [[v for v in wvec(full).values()] for _ in rows], rows=rows)
+            lim = r.choice([0.02, 0.05, 0.2, {full[0]: 0.03}])
+            tail += [{"a": "WeighTarget", "args": [nm]}, {"a": "Wrap", "inner": {"a": "LimitDeltas", "kw": {"limit": lim}}}, {"a": "Rebalance"}]
+        else:
+            tail += [{"a": "Or", "algos": [{"a": "RunOnDate", "dates": [dates[warm]]}, {"a": "Wrap", "inner": {"a": "PTE_Rebalance", "args": [r.choice([0.002, 0.01, 0.03]), "@" + nmw], "kw": win()}}]}, {"a": "WeighSpecified", "weights": tailw}, {"a": "Rebalance"}]
+        root = {"k": "S", "name": "top", "cls": "Strategy", "fi": False, "how": "list", "children": [], "algos": [{"a": "RunAfterDate", "date": dates[warm - 1]}, {"a": "Or", "algos": branches + [{"a": "AlgoStack", "algos": tail}]}]}
+        cfg = {"integer": r.random() < 0.5, "comm": None, "capital": 1e6, "fi": False, "obs_price": False, "obs_eod": False, "profile": "weigh"}
+        return {"driver": "engine", "cfg": cfg, "tree": root, "feed": fspec, "extra": extra, "fired": fired, "seed": r.randrange(1 << 30)}
+
+    def run(self, bt, plan):
+        from .monitors import c15
+
+        sim = drive_engine.EngineSim(bt, plan, set())
+        sim.light = True
+        mon = c15.C15Monitor(sim, plan)
+        sim.wrap_monitor = mon
+        drive_engine.taps.install(bt)
+        rng.pin_globals(plan["seed"])
+        exc = None
+        try:
+            sim.setup()
+            sim.bkt.run()
+        except Exception as e:  # noqa
+            exc = e
+        finally:
+            drive_engine.taps.set_current(None)
+        viol = sim.viol
+        if exc is not None:
+            import traceback
+
+            tb = traceback.format_exception(type(exc), exc, exc.__traceback__)
+            where = [ln.strip() for ln in tb if "algos.py" in ln][-1:] or [""]
+            if any(str(exc).startswith(st) for st in drive_tree.SIZING_STEMS):
+                viol.append({"check": "C10.sizing_exception", "detail": str(exc)[:80], "flags": {}})
+            else:
+                viol.append({"check": "c15_exception", "detail": "%s: %s @ %s" % (type(exc).__name__, str(exc)[:160], where[0][:160]), "flags": {"exc": type(exc).__name__}})
+        traded = sim.root is not None and getattr(sim.root, "data", None) is not None and any((n.data["position"].to_numpy() != 0).any() for n in sim.root.members if not hasattr(n, "capital"))
+        info = {"weighting_calls_judged": mon.judged}
+        for k, v in mon.kinds.items():
+            info["judged_" + k] = v
+        return dict(viol=viol[:3], fired=dict(plan.get("fired", {})), nontrivial=(mon.judged >= 10 and traded), info=info, dates=len(plan["feed"]["dates"]), steps=mon.judged)
+
+    def owns(self, check):
+        return check.startswith("c15_")
+
+    def simplifications(self, plan):
+        out = []
+        orr = plan["tree"]["algos"][1]["algos"]
+        for i in range(len(orr) - 1):
+            b2 = orr[:i] + orr[i + 1:]
+            out.append(dict(plan, tree=dict(plan["tree"], algos=[plan["tree"]["algos"][0], {"a": "Or", "algos": b2}])))
+        return out
